@@ -798,3 +798,75 @@ def rule_pivot_column(mod, rep):
             odd = [x for v in sigs.values() if v is not major for x in v]
             rep.fail("P-COLUMN", "%s#magnitudes" % f.name, "the magnitude compared at %s is read relative to a different base than the %d other candidates of the column "
                      "(another column of the supernode): the pivot policy is applied to the wrong number" % (odd[0].loc, len(major)), odd[0].loc, f.name)
+
+
+# ---------------------------------------------------------------------------------------------------------------------------------
+# SNODE-LD (C07 C19 C12): inside a supernode of L the distance between two columns is the supernode's row count
+# ---------------------------------------------------------------------------------------------------------------------------------
+def _poly_init(f, P, o, depth=0):
+    """polynomial of an index value where loop-carried phis are replaced by the value they enter the loop with (the start of a cursor)"""
+    o = strip_casts(f, o)
+    if o[0] == "v" and depth < 6:
+        x = f.inst[o[1]]
+        if x.op == "phi":
+            loops = dict(f.loops())
+            body = loops.get(x.bb.id)
+            if body is not None:
+                init = [v for v, b in zip(x.ops, x.inb) if b not in body]
+                if len(init) == 1:
+                    return _poly_init(f, P, init[0], depth + 1)
+    return P.of(o)      # below the cursor itself nothing is substituted: (jcol - fsupc) * stride keeps its product
+
+
+def _cursor_starts(f, P, o):
+    """polynomials of the values a cursor starts from: the index itself, the entry value of a loop-carried phi, or - for a scalar kept in an address-taken local -
+    every value stored to it that is not an update of the local itself"""
+    from ..ir import expr_loads
+    o = strip_casts(f, o)
+    if o[0] == "v" and f.inst[o[1]].op == "load":
+        L = f.inst[o[1]]
+        aps = f.addr_paths(L)
+        if aps and all(len(p) == 1 and p[0][0] == "L" for p in aps):
+            outs = []
+            for st in f.insts():
+                if st.op == "store" and f.addr_paths(st) == aps:
+                    if any(f.addr_paths(d) == aps for d in expr_loads(f, st.ops[0])):
+                        continue        # i++ / i += k
+                    outs.append(P.of(st.ops[0]))
+            if outs:
+                return outs
+    return [_poly_init(f, P, o)]
+
+
+def rule_snode_ld(mod, rep, pats=("sp_?trsv", "?gstrs", "?PivotGrowth"), floor=4):
+    rep.rule("SNODE-LD", "solve kernels: a supernode of L is stored as a dense block with leading dimension nsupr = rowind_colend[fsupc] - rowind_colptr[fsupc]. Whenever the "
+             "index of an access to L's values (or the start of a cursor into them) contains a product - a column offset times a stride - the stride is made of those two "
+             "extents; a product with the column count (xsup) addresses the right entry only in the supernode's first column. Accesses without a product (per-column "
+             "nzval_colptr cursors) are not concerned", floor=floor)
+    for pat in pats:
+        for prec, f in fam(mod, pat):
+            rep.scope([f.name])
+            P = _Poly(f)
+            n = 0; bad = None
+            for x in f.insts():
+                if x.op != "getelementptr":
+                    continue
+                ps = f.paths(["v", x.i])
+                if not any(p and p[-1] == ("i",) and len(p) >= 3 and p[-2] == ("*",) and p[-3][0] == "f" and p[-3][1] == "SCPformat" and p[-3][2] == "nzval" for p in ps):
+                    continue
+                idxs = [st["v"] for st in x.gep if st["k"] == "idx"]
+                if len(idxs) != 1:
+                    continue
+                n += 1
+                for poly in _cursor_starts(f, P, idxs[0]):
+                    for mono, co in poly.items():
+                        if len(mono) >= 2 and not any("rowind_col" in t for t in mono):
+                            bad = (x, mono)
+            if n == 0:
+                if pat == "?PivotGrowth" or pat == "?gstrs":
+                    continue
+                rep.brk("ANALYSIS-BROKEN SNODE-LD: %s has no access to L's values" % f.name)
+                continue
+            rep.check(bad is None, "SNODE-LD", "%s#Lval" % f.name, "%d accesses to L's values: every column stride is the row count of the supernode" % n,
+                      "the access at %s addresses L's values with the product %s, which is not the row count nsupr of the supernode: inside the supernode, columns after the first "
+                      "are read at the wrong place" % (bad[0].loc if bad else "", "*".join(bad[1]) if bad else ""), bad[0].loc if bad else f.file, f.name)
